@@ -391,7 +391,10 @@ class SSHChannel(Generic[AnyStr], SSHPacketHandler):
         else:
             decoded_data = cast(AnyStr, data)
 
-        if self._session is not None:
+        # Nothing is decoded yet when a packet ends inside a multi-byte
+        # character. Don't deliver an empty string, as readers take that
+        # to mean end of file.
+        if self._session is not None and decoded_data:
             self._session.data_received(decoded_data, datatype)
 
     def _accept_data(self, data: bytes, datatype: DataType = None) -> None:
